@@ -30,7 +30,7 @@ def conflicts(p, paths):
 
 class Main(P.PorcelainSuite):
     name = "main"
-    quick_n = 230
+    quick_n = 170
     thorough_n = 2500
     buckets = [(5, "hard"), (3, "untracked"), (3, "rmcached"), (2, "staged"), (2, "random"), (1, "errors"), (1, "df")]
     weights = {"force": 6, "plain": 2, "ckeep": 1, "hard": 6, "merge": 1, "keep": 1, "mixed": 1, "soft": 1}
